@@ -2,8 +2,8 @@
 
 Space  : all ordered pairs of operand shapes (7 base dimensions, 6 derived,
          one fractional exponent, a plain non-zero number, a bare zero) x all
-         ordered pairs of magnitudes from {-2, 0, 1.5, 3} (equal pairs
-         included) x operand forms {scalar, array, array with a zero element}
+         ordered pairs of magnitudes from {-2, 0, 1.5, 3, 3(1+1e-12), 1e-20}
+         (equal, nearly equal and tiny values included) x operand forms {scalar, array, array with a zero element}
          x the operations == != < <= > >= + - * / and, per operand, unary -,
          abs, ** {2, 0, 0.5, -1}, in_units to every shape.
 Oracle : the same operation on (SI magnitude, exponent vector) pairs.
@@ -25,7 +25,7 @@ EXPS = {'m': (1, 0, 0, 0, 0, 0, 0), 'kg': (0, 1, 0, 0, 0, 0, 0),
         'J/mol': (2, 1, -2, 0, 0, -1, 0), 'J/(mol K)': (2, 1, -2, 0, -1, -1, 0),
         '1/K': (0, 0, 0, 0, -1, 0, 0), 'm^0.5': (0.5, 0, 0, 0, 0, 0, 0)}
 NULL = (0, 0, 0, 0, 0, 0, 0)
-MAGS = [-2.0, 0.0, 1.5, 3.0]
+MAGS = [-2.0, 0.0, 1.5, 3.0, 3.0 * (1 + 1e-12), 1e-20]
 FORMS = ['scalar', 'array', 'array0']
 BINOPS = [('==', operator.eq), ('!=', operator.ne), ('<', operator.lt),
           ('<=', operator.le), ('>', operator.gt), ('>=', operator.ge),
@@ -237,6 +237,30 @@ def run_unary(R, shape, only=None):
                     R.violation('un:%s:%s' % (name, got[0]),
                                 '%s(%s %s %s): expected %r, got %r' % (
                                     name, mag, shape, form, want, got), case)
+            # exponents that cancel only up to floating-point residue
+            if form == 'scalar' and mag > 0:
+                for a_, b_, c_ in ((0.1, 0.2, 0.3), (0.7, 0.2, 0.9), (1.0 / 3, 1.0 / 3, 2.0 / 3),
+                                   (0.1, 0.7, 0.8)):
+                    case = dict(kind='un', a=[shape, mag, form], op='chain%s' % ((a_, b_, c_),))
+                    if only is not None and only != case:
+                        continue
+                    R.evals += 1
+                    R.nontrivial += 1
+                    try:
+                        r1 = (q ** a_) * (q ** b_) / (q ** c_)
+                        r2 = ((q ** a_) ** (1.0 / a_)) + q
+                        got = ('val',) + observe(r1) + observe(r2)
+                    except Exception as ex:      # noqa
+                        got = ('EXC:' + type(ex).__name__,)
+                    ok = (got[0] == 'val' and got[2] is None and
+                          abs(float(got[1]) - 1.0) < 1e-9 and got[4] is not None and
+                          all(abs(x - y) < 1e-9 for x, y in zip(got[4], e)) and
+                          abs(float(got[3]) - 2 * m) < 1e-9 * abs(2 * m))
+                    R.outcomes['chain:%s' % ('ok' if ok else 'bad')] += 1
+                    if not ok:
+                        R.violation('un:power-chain:%s' % got[0],
+                                    '(q**%r)*(q**%r)/(q**%r) and (q**a)**(1/a)+q for q=%s %s: %r'
+                                    % (a_, b_, c_, mag, shape, got), case)
             # conversion to every shape
             for target in SHAPES:
                 if target.startswith('#'):
